@@ -8,31 +8,96 @@ use super::*;
 use dashu_base::{DivRem, DivRemAssign};
 include!("/verif/kani/harness/shim.rs");
 
-/// UBig of operand class c: 1 = one symbolic word (may be zero), 2 = two words (top != 0), 3 = three words.
-fn ubig(c: usize) -> UBig {
-    let w: [Word; 3] = any();
+/// A well-formed Repr of operand class c built straight from the documented `#[repr(C)]` layout
+/// ([lo, hi, capacity] inline; Buffer {ptr, len, capacity} on the heap), NOT through the constructors: after
+/// `from_dword` / `from_buffer` the inline/heap discriminant is a computed value for CBMC, which then has to
+/// encode the multi-word branches of every operator over pointers made of the inline words (out of memory).
+/// c = 1: one word (may be zero), c = 2: two words (top != 0), c = 3: three words in a heap buffer.
+fn repr_of(c: usize, neg: bool, w: &[Word; 3]) -> crate::repr::Repr {
+    use crate::{buffer::Buffer, repr::Repr};
     assume(c == 1 || w[c - 1] != 0);
-    UBig::from_words(&w[..c])
+    assume(!(neg && c == 1 && w[0] == 0)); // zero is never negative
+    if c <= 2 {
+        let cap = if neg { -(c as isize) } else { c as isize };
+        let hi = if c == 2 { w[1] } else { 0 };
+        unsafe { core::mem::transmute::<[u64; 3], Repr>([w[0], hi, cap as u64]) }
+    } else {
+        let mut b = Buffer::allocate_exact(5);
+        b.push(w[0]);
+        b.push(w[1]);
+        b.push(w[2]);
+        let r: Repr = unsafe { core::mem::transmute::<Buffer, Repr>(b) };
+        if neg {
+            r.neg()
+        } else {
+            r
+        }
+    }
 }
-fn ibig(c: usize) -> IBig {
-    let neg: bool = any();
-    IBig::from_parts(if neg { Sign::Negative } else { Sign::Positive }, ubig(c))
+fn ubig_w(c: usize, w: &[Word; 3]) -> UBig {
+    UBig(repr_of(c, false, w))
+}
+fn ibig_w(c: usize, neg: bool, w: &[Word; 3]) -> IBig {
+    IBig(repr_of(c, neg, w))
 }
 
-/// all owned / borrowed / assign forms of a binary operator against the ref-ref form
-macro_rules! forms_agree {
-    ($a:ident, $b:ident, $op:tt, $opa:tt) => {{
-        let r = &$a $op &$b;
-        assert!($a.clone() $op $b.clone() == r);
-        assert!($a.clone() $op &$b == r);
-        assert!(&$a $op $b.clone() == r);
-        let mut x = $a.clone();
-        x $opa $b.clone();
-        assert!(x == r);
-        let mut y = $a.clone();
-        y $opa &$b;
-        assert!(y == r);
-        r
+/// observable value of a result: sign, words (absent words 0) and length, read once through the public accessors
+#[derive(Clone, Copy)]
+struct Obs {
+    neg: bool,
+    w: [Word; 5],
+    len: usize,
+}
+fn obs_words(neg: bool, s: &[Word]) -> Obs {
+    let mut r = Obs { neg, w: [0; 5], len: s.len() };
+    assert!(s.len() <= 5);
+    let mut i = 0;
+    while i < 5 {
+        if i < s.len() {
+            r.w[i] = s[i];
+        }
+        i += 1;
+    }
+    r
+}
+fn obs_u(x: &UBig) -> Obs {
+    obs_words(false, x.as_words())
+}
+fn obs_i(x: &IBig) -> Obs {
+    let (s, w) = x.as_sign_words();
+    obs_words(s == Sign::Negative, w)
+}
+/// (not `==` on arrays: that is a byte-wise memcmp loop for CBMC)
+fn same(a: Obs, b: Obs) -> bool {
+    a.neg == b.neg
+        && a.len == b.len
+        && a.w[0] == b.w[0]
+        && a.w[1] == b.w[1]
+        && a.w[2] == b.w[2]
+        && a.w[3] == b.w[3]
+        && a.w[4] == b.w[4]
+}
+
+/// Owned / borrowed / assign forms of a binary operator against the ref-ref form; the operands are rebuilt
+/// from the same words for every form (A, B are expressions) and every result is observed once.
+/// Split in two halves (CBMC's cost grows much faster than linearly with the number of live big integers).
+macro_rules! forms_val {
+    ($obs:ident, $A:expr, $B:expr, $op:tt) => {{
+        let r = $obs(&(&$A $op &$B));
+        assert!(same($obs(&($A $op $B)), r));
+        assert!(same($obs(&($A $op &$B)), r));
+        assert!(same($obs(&(&$A $op $B)), r));
+    }};
+}
+macro_rules! forms_assign {
+    ($obs:ident, $A:expr, $B:expr, $op:tt, $opa:tt) => {{
+        let r = $obs(&(&$A $op &$B));
+        let mut x = $A;
+        x $opa $B;
+        assert!(same($obs(&x), r));
+        let mut y = $A;
+        y $opa &$B;
+        assert!(same($obs(&y), r));
     }};
 }
 
@@ -64,34 +129,18 @@ macro_rules! harness_panics {
 }
 
 // ---------------------------------------------------------------- probes
-fn ubig_w(c: usize, w: &[Word; 3]) -> UBig {
-    UBig::from_words(&w[..c])
-}
-harness!(vk_int_forms_probe_a, 30, {
-    let (a, b) = (ubig(1), ubig(1));
-    let r = &a + &b;
-    assert!(r.as_words().len() <= 2);
-});
-harness!(vk_int_forms_probe_b, 30, {
+harness!(vk_int_forms_probe_a, 7, {
     let wa: [Word; 3] = any();
     let wb: [Word; 3] = any();
-    let r = &ubig_w(1, &wa) + &ubig_w(1, &wb);
-    let q = ubig_w(1, &wa) + ubig_w(1, &wb);
-    assert!(r == q);
+    forms_val!(obs_u, ubig_w(2, &wa), ubig_w(2, &wb), +);
 });
-harness!(vk_int_forms_probe_c, 30, {
+harness!(vk_int_forms_probe_b, 7, {
     let wa: [Word; 3] = any();
     let wb: [Word; 3] = any();
-    assume(wa[1] != 0 && wb[1] != 0);
-    let r = &ubig_w(2, &wa) + &ubig_w(2, &wb);
-    let q = ubig_w(2, &wa) + ubig_w(2, &wb);
-    assert!(r == q);
+    forms_assign!(obs_u, ubig_w(2, &wa), ubig_w(2, &wb), +, +=);
 });
-harness!(vk_int_forms_probe_d, 30, {
+harness!(vk_int_forms_probe_c, 7, {
     let wa: [Word; 3] = any();
     let wb: [Word; 3] = any();
-    assume(wa[2] != 0 && wb[1] != 0);
-    let r = &ubig_w(3, &wa) + &ubig_w(2, &wb);
-    let q = ubig_w(3, &wa) + ubig_w(2, &wb);
-    assert!(r == q);
+    forms_val!(obs_u, ubig_w(1, &wa), ubig_w(1, &wb), +);
 });
